@@ -66,9 +66,11 @@ PoolHistQ == { Base("r1"), [Base("r1") EXCEPT !.path = <<"dyn", "/X/@m">>],
                [Base("r3") EXCEPT !.host = <<"static", "example.com">>, !.ips = <<<<"in", "10.0.0.0/8">>, <<"not_in", "10.1.0.0/16">>>>],
                [Base("r3") EXCEPT !.path = <<"dyn", "/x/@m">>] }
 
-Cfg(a, b, c, d) == [ihc |-> a, ihdr |-> b, ipc |-> c, always |-> d]
+\* mkt (ignore marketing parameters) follows ipc: the probes carry no marketing parameter, the flag only selects the
+\* code path of the request normalisation (with both off the URL is not rewritten at all)
+Cfg(a, b, c, d) == [ihc |-> a, ihdr |-> b, ipc |-> c, always |-> d, mkt |-> c]
 CfgsAll == {Cfg(a, b, c, d) : a, b, c, d \in BOOLEAN}
-CfgsQuick == {Cfg(FALSE, FALSE, FALSE, TRUE), Cfg(TRUE, TRUE, TRUE, FALSE), Cfg(FALSE, FALSE, FALSE, FALSE), Cfg(TRUE, TRUE, TRUE, TRUE)}
+CfgsQuick == {Cfg(FALSE, FALSE, FALSE, TRUE), Cfg(TRUE, TRUE, TRUE, FALSE), Cfg(FALSE, FALSE, FALSE, FALSE), Cfg(TRUE, TRUE, TRUE, TRUE), Cfg(TRUE, TRUE, FALSE, FALSE)}
 CfgsTwo == {Cfg(FALSE, FALSE, FALSE, TRUE), Cfg(TRUE, TRUE, TRUE, FALSE)}
 
 HL(n, v) == [name |-> n, value |-> v]
